@@ -323,6 +323,8 @@ def o_diff(case):
     cls = [f"bufsize{case['bufsize']}"] + (["chunked-" + case["enc"]] if case.get("enc") else []) + (["socket-wrapped-by-caller"] if case.get("prewrap") else [])
     if any(i.get("aligned") for i in items):
         cls.append("item-aligned-to-bufsize")
+    if case.get("repeated"):
+        cls.append("highly-compressible-chunk")
     if case["bufsize"] > 1 and len(case["cuts"]) >= 2 and all(c % case["bufsize"] == 0 for c in case["cuts"]):
         cls.append("every-receive-fills-the-buffer")
     off = 0
@@ -349,6 +351,12 @@ def s_diff(draw, tier):
     extra = {"prewrap": draw(st.integers(0, 3)) == 0}
     if draw(st.integers(0, 3)) == 0:
         extra.update(enc=draw(st.sampled_from(["none", "none", "gzip", "compress", "deflate"])), chunk=draw(st.sampled_from([5, 31, 64, 700])))
+        if extra["enc"] != "none" and draw(st.integers(0, 2)) == 0 and 0 < n <= 400:
+            # the same few items broadcast again and again inside one chunk: compresses several hundred to one
+            items = items * min(draw(st.sampled_from([40, 150, 400])), 40000 // n)
+            n = sum(len(i["b"]) // 2 for i in items)
+            extra["chunk"] = 50000
+            extra["repeated"] = True
         n = 3 * n + 64
     mode = draw(st.integers(0, 5))
     if mode <= 1 and "enc" not in extra:
